@@ -3,7 +3,7 @@
 usage: seedtest.py [seed-dir-names...]   (default: all under /verif/seeded)"""
 import os, sys, json, subprocess, time
 VERIF = os.path.dirname(os.path.dirname(os.path.abspath(__file__)))
-REPO = "/repo"
+REPO = os.environ.get("SEED_REPO", "/repo")      # a scratch clone may be used while other runs read /repo
 seeds = sys.argv[1:] or sorted(os.listdir(os.path.join(VERIF, "seeded")))
 rows = []
 for sd in seeds:
@@ -16,7 +16,8 @@ for sd in seeds:
     subprocess.check_call(["git", "-C", REPO, "apply", os.path.join(d, "patch.diff")])
     try:
         t0 = time.time()
-        p = subprocess.run([os.path.join(VERIF, "check"), prop], capture_output=True, text=True, cwd=VERIF)
+        env = dict(os.environ, SCODA_REPO=REPO)
+        p = subprocess.run([os.path.join(VERIF, "check"), prop], capture_output=True, text=True, cwd=VERIF, env=env)
         out = p.stdout + p.stderr
         viol = [l for l in out.splitlines() if l.startswith("VIOLATION")]
         detail = ""
